@@ -36,6 +36,9 @@ type GenConfig struct {
 	// PackageCycles: files are assigned to packages in arbitrary order, so packages may import each
 	// other in cycles (the file import graph stays acyclic). Never with Styled.
 	PackageCycles bool
+	// SharedDirs: several packages may live in one directory, and some files have no package statement
+	// (both are lint violations, never with Styled).
+	SharedDirs bool
 }
 
 // DefaultConfig is a moderately sized wild configuration.
@@ -219,9 +222,14 @@ func GenWorkspace(t *rapid.T, cfg GenConfig) *Workspace {
 		} else {
 			p.name = name
 		}
-		if cfg.Styled || g.pct("dirmatch", 70) {
+		switch {
+		case cfg.Styled || g.pct("dirmatch", 70):
 			p.dir = strings.ReplaceAll(p.name, ".", "/")
-		} else {
+		case cfg.SharedDirs && i > 0 && g.pct("shareddir", 50):
+			// same directory AND same module as an earlier package (a directory belongs to one module)
+			q := pkgs[g.intn("sharewith", 0, i-1)]
+			p.dir, p.mod = q.dir, q.mod
+		default:
 			p.dir = fmt.Sprintf("dir%d", i)
 		}
 		if cfg.FileOptions && g.pct("pkgopts", 50) {
@@ -257,6 +265,9 @@ func GenWorkspace(t *rapid.T, cfg GenConfig) *Workspace {
 	for i := 0; i < nFiles; i++ {
 		p := pkgs[pkgOfFile[i]]
 		f := &File{ID: g.id("file"), Package: p.name}
+		if cfg.SharedDirs && !cfg.Styled && g.pct("nopackage", 8) {
+			f.Package = ""
+		}
 		f.Path = p.dir + "/" + g.word() + ".proto"
 		f.Syntax = cfg.Syntaxes[g.intn("syntax", 0, len(cfg.Syntaxes)-1)]
 		if cfg.SyntaxUnspec && !cfg.Styled && g.pct("nosyntax", 8) && contains(cfg.Syntaxes, Proto2) {
@@ -471,6 +482,9 @@ func (g *gen) genFileBody(f *File) {
 	}
 	if cfg.Services && g.pct("service", 45) {
 		g.genService(f)
+		if g.pct("service2", 35) {
+			g.genService(f)
+		}
 	}
 	if cfg.Extensions && f.Syntax != Proto3 && g.pct("extensions", 35) {
 		g.genExtensions(f)
